@@ -26,7 +26,7 @@ def sym_size(c, name, mode, hi=1000000):
 
 
 def mk_position_order(c, tag, strategy, mode, selection_id=1, statuses=STATUS_QUICK, kinds=KINDS, new=False, side=None,
-                      status=None, msplits=("none", "part", "all"), part_cancel=True):
+                      status=None, msplits=("none", "part", "all"), part_cancel=True, new_tif=False):
     """one real order of `strategy` in a symbolic state; returns (order, descriptor)"""
     if not new:
         # the status is a lazily symbolic finite-domain value: paths fork only where the code distinguishes statuses
@@ -38,7 +38,9 @@ def mk_position_order(c, tag, strategy, mode, selection_id=1, statuses=STATUS_QU
         size = sym_size(c, "%s_size" % tag, mode)
         if kind == "LIMIT":
             price = sym_price(c, "%s_price" % tag, mode)
-            order = cm.mk_limit(strategy, side, price, size, selection_id=selection_id)
+            # (a prospective fill-or-kill order is at risk for its full size like any other order: its worst case is a complete fill)
+            tif = c.choose("%s_time_in_force" % tag, [None, "FILL_OR_KILL"]) if (new and new_tif) else None
+            order = cm.mk_limit(strategy, side, price, size, selection_id=selection_id, tif=tif)
         else:
             price = c.pick("%s_line" % tag, LINES_K)
             order = cm.mk_limit(strategy, side, price, size, selection_id=selection_id, ladder_def="LINE_RANGE")
